@@ -136,6 +136,10 @@ inductive DTree where
 
 def natToStr (n : Nat) : Str := (toString n).toList.map Char.toNat
 
+/-- the string a dynamic text shows for the value of its signal (the harness closure): empty for multiples
+of four, so that empty dynamic texts — a corner of hydration — occur -/
+def dynTextStr (n : Nat) : Str := if n % 4 = 0 then [] else natToStr n
+
 /-- attributes present on the element for the current store -/
 def evalAttrs (σ : Store) : List (Str × AttrV) → List (Str × Str)
   | [] => []
@@ -147,7 +151,7 @@ mutual
 def dom (σ : Store) : Inst → List DTree
   | .el id tag attrs cs => [.elem id tag (evalAttrs σ attrs) (domList σ cs)]
   | .text id s => [.text id s]
-  | .dynText id sig => [.text id (natToStr (σ.get sig))]
+  | .dynText id sig => [.text id (dynTextStr (σ.get sig))]
   | .dynView a b _ _ cur => [.comment a] ++ domList σ cur ++ [.comment b]
   | .show a b sig cs => [.comment a] ++ (if σ.get sig % 2 = 1 then domList σ cs else []) ++ [.comment b]
   | .frag cs => domList σ cs
